@@ -339,13 +339,14 @@ func checkC12(c *Ctx) {
 	for _, x := range set.Extra {
 		extra[x] = true
 	}
-	operandPats := [][]uint8{{0, 0}, {1, 0}, {0x7F, 0x7F}, {0x80, 0x80}, {0xFF, 0xFF}, {0xFE, 0xFF}}
+	operandPats := [][]uint8{{0, 0}, {1, 0}, {0x7F, 0x7F}, {0x80, 0x80}, {0xFF, 0xFF}, {0xFE, 0xFF}, {0xDD, 0xDD}, {0xFD, 0xDD}, {0xED, 0xED}, {0xCB, 0xCB}}
 	type cfgv struct {
 		mem, io, im, req int
 		pc, sp           uint16
 		iff1             bool
+		fill             uint8
 	}
-	def := cfgv{0, 4, 1, 0, 0x0100, 0x8000, false}
+	def := cfgv{mem: 0, io: 4, im: 1, req: 0, pc: 0x0100, sp: 0x8000}
 	var cfgs []cfgv
 	cfgs = append(cfgs, def)
 	for m := 1; m < len(c12MemLens); m++ {
@@ -371,6 +372,14 @@ func checkC12(c *Ctx) {
 		x := def
 		x.pc = pc
 		cfgs = append(cfgs, x)
+	}
+	// memories in which every other byte is the same prefix / opcode (runs of prefixes that never end, ...)
+	for _, fill := range []uint8{0xDD, 0xFD, 0xED, 0xCB, 0xFF, 0x76, 0x18, 0x10} {
+		for _, pc := range []uint16{0x0100, 0xFFFF} {
+			x := def
+			x.pc, x.fill = pc, fill
+			cfgs = append(cfgs, x)
+		}
 	}
 	for _, sp := range []uint16{0x0000, 0x0001, 0x0002, 0xFFFF, 0x0101, 0x0102} {
 		x := def
@@ -407,7 +416,7 @@ func checkC12(c *Ctx) {
 			}
 		}
 	}
-	c.Rule = fmt.Sprintf("every decode path (%d byte prefixes incl. all 65536 (d,op) pairs after DDCB/FDCB) x %d operand byte patterns x %d configurations (memory kind {64K array, DumbMemory len 0/1/256/32768, MapMemory} / IO kind {nil, DumbIO len 0/1/128/256} / IM {0,1,2,-1,3,MaxInt} / PC {0000,0100,FFFC..FFFF} / SP / pending request {none, NMI, unknown types, IM1, IM2, mode-0 data of 1..4 bytes and 70000 bytes} one at a time around a default, thorough: pairs); all 256 single-byte opcodes and multi-byte forms as mode-0 data x IM x IFF1 x PC x memory kind; mode-0 data of 5/8/300 bytes starting with each of the 256 opcodes with every pointer register aimed into and around [PC, PC+len); Run on a halting program with every request kind pending x IM x IFF1; Run vs Step-driven twin on every decode path as a one-instruction program in HALT-filled memory. Oracle: no panic, deterministic watchdog (4096 accesses per Step), unsupported opcodes only consumed. Non-trivial = the configuration deviates from the default in memory/IO/IM/request or the path is an unsupported or prefix-only encoding (counted).", len(paths), len(operandPats), len(cfgs))
+	c.Rule = fmt.Sprintf("every decode path (%d byte prefixes incl. all 65536 (d,op) pairs after DDCB/FDCB) x %d operand byte patterns x %d configurations (memory kind {64K array, DumbMemory len 0/1/256/32768, MapMemory} / IO kind {nil, DumbIO len 0/1/128/256} / IM {0,1,2,-1,3,MaxInt} / PC {0000,0100,FFFC..FFFF} / SP / pending request {none, NMI, unknown types, IM1, IM2, mode-0 data of 1..4 bytes and 70000 bytes} one at a time around a default, thorough: pairs); all 256 single-byte opcodes and multi-byte forms as mode-0 data x IM x IFF1 x PC x memory kind; mode-0 data of 5/8/300 bytes starting with each of the 256 opcodes with every pointer register aimed into and around [PC, PC+len); Run on a halting program with every request kind pending x IM x IFF1; Run vs Step-driven twin on every decode path as a one-instruction program in HALT-filled memory. the real DumbMemory (6 lengths) and MapMemory passed to the CPU unwrapped x every decode path x operand patterns x 4 PCs x 7 SPs; memories filled with a single prefix/opcode byte; Oracle: no panic, deterministic watchdog (4096 accesses per Step), unsupported opcodes only consumed. Non-trivial = the configuration deviates from the default in memory/IO/IM/request or the path is an unsupported or prefix-only encoding (counted).", len(paths), len(operandPats), len(cfgs))
 	c.Bound = "decode tree x configuration lattice " + c.Tier
 	var evals, nontriv [16 * 8]int64
 	var capped int32
@@ -437,7 +446,7 @@ func checkC12(c *Ctx) {
 					if len(p.bytes) == 4 && ci > 0 && (p.bytes[2]%16 != 0) {
 						continue // DDCB/FDCB: configurations for every 16th displacement only
 					}
-					cfg := c12Config{Mem: cf.mem, IO: cf.io, IM: cf.im, PC: cf.pc, SP: cf.sp, Req: cf.req, IFF1: cf.iff1, Bytes: hexBytes(full)}
+					cfg := c12Config{Mem: cf.mem, IO: cf.io, IM: cf.im, PC: cf.pc, SP: cf.sp, Req: cf.req, IFF1: cf.iff1, Fill: cf.fill, Bytes: hexBytes(full)}
 					d := c12One(&cfg, reqs, inv, sc)
 					ev++
 					if ci > 0 || inv != nil {
@@ -502,6 +511,62 @@ func checkC12(c *Ctx) {
 				}
 			}
 		}
+	}
+	// the real memory types handed to the CPU UNWRAPPED (a wrapper hides the concrete type, and with it any
+	// type-dependent fast path): every decode path x operand patterns x lengths x SP/PC at the edges.
+	// No access-count watchdog is possible here; a wall-clock backstop of two minutes guards the check.
+	{
+		var cur string
+		done := c.WatchWall(func() string { return "Step on an unwrapped memory: " + cur })
+		type rawMem struct {
+			name string
+			mk   func() z80.Memory
+			put  func(m z80.Memory, a uint16, b uint8)
+		}
+		var raws []rawMem
+		for _, l := range []int{1, 2, 256, 32768, 65535, 65536} {
+			l := l
+			raws = append(raws, rawMem{fmt.Sprintf("DumbMemory len %d", l), func() z80.Memory { return make(z80.DumbMemory, l) }, func(m z80.Memory, a uint16, b uint8) { m.Set(a, b) }})
+		}
+		raws = append(raws, rawMem{"MapMemory", func() z80.Memory { return z80.MapMemory{} }, func(m z80.Memory, a uint16, b uint8) { m.Set(a, b) }})
+		for _, rm := range raws {
+			mem := rm.mk()
+			for pi := range paths {
+				p := paths[pi]
+				if len(p.bytes) == 4 && p.bytes[2]%64 != 0 {
+					continue
+				}
+				for _, op := range operandPats {
+					full := append(append([]uint8{}, p.bytes...), op...)
+					for _, pc := range []uint16{0x0000, 0x00FC, 0x7FFC, 0xFFFD} {
+						for _, sp := range []uint16{0x0000, 0x0001, 0x0002, 0x0100, 0x8000, 0xFFFE, 0xFFFF} {
+							for i, b := range full {
+								rm.put(mem, pc+uint16(i), b)
+							}
+							cpu := z80.CPU{Memory: mem, IO: make(z80.DumbIO, 4)}
+							cpu.PC, cpu.SP = pc, sp
+							cpu.HL.SetU16(sp)
+							cpu.IX, cpu.IY = sp, 0xFFFF
+							cpu.BC.SetU16(0xFFFF)
+							cpu.DE.SetU16(0xFFFE)
+							cur = fmt.Sprintf("%s, bytes %s at PC=%04X, SP=HL=IX=%04X", rm.name, hexBytes(full), pc, sp)
+							var pan interface{}
+							func() {
+								defer func() { pan = recover() }()
+								cpu.Step()
+							}()
+							n++
+							if pan != nil {
+								c.Report("c12/rawmem:"+rm.name, n, "", map[string]string{"memory": rm.name, "bytes": hexBytes(full), "pc": fmt.Sprintf("%04X", pc), "sp": fmt.Sprintf("%04X", sp)}, []string{fmt.Sprintf("Step on %s (passed to the CPU directly), bytes %s at PC=%04X, SP=HL=IX=%04X, BC=IY=FFFF, DE=FFFE: %v", rm.name, hexBytes(full), pc, sp, pan)})
+								goto nextRaw
+							}
+						}
+					}
+				}
+			}
+		nextRaw:
+		}
+		done()
 	}
 	// mode-0 data longer than any instruction, the supplied instruction reading / writing / jumping through
 	// pointers into and around the window [PC, PC+len(data))
